@@ -59,6 +59,7 @@ func sameStrings(a, b []string) bool {
 func oracleInstants(c *Case) CaseResult {
 	runtime.GOMAXPROCS(c.Procs)
 	st := NewStore(c.Data)
+	st.ClipToHints = c.ID%2 == 1 // a storage that trims to the selected range, every other case
 	cfg := c.Cfg()
 	eng := newImpl(cfg)
 	res := CaseResult{}
